@@ -70,7 +70,7 @@ def _batch(draw):
     if widths == "sweep":  # 40..200 in steps of 4 with a drawn offset, so that all residues are visited across batches
         widths = ["unset"] + list(range(40 + draw(st.integers(0, 3)), 201, 4))
     irs = draw(st.lists(_ir(), min_size=n, max_size=n))
-    flip = [i % 2 == 1 for i in range(n)]  # every second description runs with the default-text switch flipped
+    flip = [i % 4 for i in range(n)]  # bit 0: default text flipped; bit 1: function / method types in the docstring
     if widths == "boundary":
         widths = _boundary_widths(irs, flip, draw(st.integers(0, 2 ** 16)))
     return {"irs": irs, "widths": list(widths), "flip": flip}
@@ -166,8 +166,9 @@ def run_case(case):
                 i, kind = key.split(":")
                 cir = case["irs"][int(i)]
                 ctx, nt = shape_tags(cir, kind, width)
-                flipped = bool((case.get("flip") or [False] * len(case["irs"]))[int(i)])
-                ctx = ctx | {"emit_default_doc=%s" % kinds.wrap_opts(kind, flipped, True)["emit_default_doc"]}
+                flipped = int((case.get("flip") or [0] * len(case["irs"]))[int(i)])
+                wo = kinds.wrap_opts(kind, flipped, True)
+                ctx = ctx | {"emit_default_doc=%s" % wo["emit_default_doc"]} | ({"inline_types=%s" % wo["inline_types"]} if "inline_types" in wo else set())
                 subcases.append((case_hash([cir, kind, width]), nt))
                 evals += 1
                 tags.add("kind=" + kind)
@@ -236,4 +237,4 @@ def focus(case, disc):
     w = m.group(3)
     idx = int(m.group(1))
     return {"irs": [case["irs"][idx]], "widths": ["unset" if w == "unset" else int(w)],
-            "flip": [bool((case.get("flip") or [False] * len(case["irs"]))[idx])]}
+            "flip": [int((case.get("flip") or [0] * len(case["irs"]))[idx])]}
